@@ -127,6 +127,25 @@ Theorem second_round_facts_hold : second_round_facts = true.
 Proof. exact second_round_facts_hold_proof. Qed.
 Print Assumptions second_round_facts_hold.
 
+(* the version gate with the comparison it makes (semantic-version order, multi-digit components,
+   pre-releases; build metadata is not part of a version): a node is stopped exactly when it is off
+   the governed major.minor line or OLDER than the completed upgrade *)
+Theorem version_gate_semver : forall a b,
+  gate_open (Some a) (Some (Some b)) = false <->
+  (sv_major a <> sv_major b \/ sv_minor a <> sv_minor b \/ sem_cmp a b = Lt).
+Proof. exact version_gate_semver_proof. Qed.
+Print Assumptions version_gate_semver.
+
+Theorem version_gate_newer_patch_open : forall a b,
+  sv_major a = sv_major b -> sv_minor a = sv_minor b -> sv_pre a = nil -> sv_patch b <= sv_patch a ->
+  gate_open (Some a) (Some (Some b)) = true.
+Proof. exact version_gate_newer_patch_open_proof. Qed.
+Print Assumptions version_gate_newer_patch_open.
+
+Theorem version_gate_no_upgrade_or_same : forall a, gate_open a None = true /\ gate_open a (Some a) = true.
+Proof. exact version_gate_no_upgrade_or_same_proof. Qed.
+Print Assumptions version_gate_no_upgrade_or_same.
+
 (* --- source translation tie (GenFn) --- *)
 (* The Go function bodies named below are re-translated from the source on every check
    (harness/cmd/extract/gotrans*.go -> GenFn/*.v, semantics of the Go subset: Trans/GoSem.v).
